@@ -471,10 +471,10 @@ func bigAlphabet(r *Rng, n int) string {
 	return b.String()
 }
 
-// genManyReqCfg: more required sets than any shortcut threshold is likely to sit at (11-13), short
+// genManyReqCfg: more required sets than any shortcut threshold is likely to sit at (11-12), short
 // passwords over a small alphabet so that every order of the inclusion-exclusion sum matters.
 func genManyReqCfg(r *Rng) CharCfg {
-	k := 11 + r.Intn(3)
+	k := 11 + r.Intn(2)
 	pool := runes("abcdefghijklmnopqrstuvwxyz")
 	var sets []string
 	for i := 0; i < k; i++ {
